@@ -793,7 +793,7 @@ Ops make_ops()
 // cannot leave a state with sig > max/10, sig % 10 != 0 and in_exponent != 0. A real hang costs
 // >= 100 ms of CPU, and whole programs (every value of an 8/16-bit rep at E >= 53) consist of such
 // values, so the model is used to ration them: the first predicted value of a program and then
-// every 2^k-th one is executed (len = 1, generous time limit the first time); while the
+// every 4^k-th one is executed (len = 1, generous time limit the first time); while the
 // implementation does hang on these, the remaining lengths/values the model predicts are not
 // executed and are counted as `not_run_hang_predicted_by_confirmed_defect_model` (the program is
 // then no longer reported as full-type). The first sampled value that does NOT hang switches the
@@ -939,7 +939,8 @@ static void run_program(Ops const& P, std::vector<Big> const& values, bool full,
             if (s.hang_predicted && !vf::replaying() && hm.state >= 0) {
                 predicted = true;
                 hm.npred++;
-                sample = (hm.npred & (hm.npred - 1)) == 0;
+                // 1st, 4th, 16th, 64th ... predicted value of this program in this worker
+                sample = (hm.npred & (hm.npred - 1)) == 0 && (__builtin_ctzll(hm.npred) % 2) == 0;
             }
             bool cap_safe = true, have_ref = false;
             std::string ref;
@@ -956,7 +957,7 @@ static void run_program(Ops const& P, std::vector<Big> const& values, bool full,
                     probe = true;
                 }
                 int const saved_ticks = vf::g.hang_ticks;
-                if (probe && hm.state == 0 && vf::g.hang_ticks < 20) vf::g.hang_ticks = 20;
+                if (probe && hm.state == 0 && vf::g.hang_ticks < 10) vf::g.hang_ticks = 10;  // first probe: 0.5 s of CPU
                 CallRes r = guarded(len, [&](char* f, char* l) { return P.tc(f, l, base); });
                 vf::g.hang_ticks = saved_ticks;
                 if (probe) hm.state = r.o.kind == vf::HANG ? 1 : -1;
